@@ -108,7 +108,7 @@ class ClassGen:
             param = rng.choice(["a", "a", rng.choice(POOL)])
             self.cur = i
             body = self.block(2 + rng.below(2), [param], [param], top=True)
-            body.append(["return", self.expr(2, [param])])
+            body.append(["return", self.expr(2, [param], top=True)])
             self.methods.append((self.mnames[i], param, body))
         self.calls = [(rng.choice(self.mnames), rng.below(9) - 2) for _ in range(2 + rng.below(4))]
         # the var block: int fields (grouped at random) + decorations
@@ -135,8 +135,16 @@ class ClassGen:
             return self.rng.choice(self.fields)
         return self.rng.choice(GLOBALS)
 
-    def expr(self, depth, scope):
-        r = self.rng.below(12 if depth > 0 else 5)
+    def expr(self, depth, scope, top=False):
+        """top=True: the expression fills a whole slot (right-hand side, printed value, condition, returned value,
+        call argument).  A method call is only generated there: Go does not specify whether an operand such as a field
+        read in `x3 + m3(1)` is evaluated before or after the call (gc reads it AFTER), so a call next to another
+        operand that the callee can modify has no defined meaning to compare with."""
+        later = self.mnames[self.cur + 1:]
+        if top and later and self.rng.below(5) == 0:
+            self.count("call")
+            return [self.rng.choice(["call", "call", "thiscall"]), self.rng.choice(later), self.expr(depth - 1, scope, top=True)]
+        r = self.rng.below(10 if depth > 0 else 5)
         if r < 2:
             return str(self.rng.below(7) - 2)
         if r < 5:
@@ -147,14 +155,8 @@ class ClassGen:
             return ["mul", self.expr(depth - 1, scope), str(self.rng.below(5) - 2)]
         if r < 9:
             return ["lt", self.expr(depth - 1, scope), self.expr(depth - 1, scope)]
-        if r < 10:
-            self.count("this.f")
-            return ["this", self.rng.choice(self.fields)]
-        later = self.mnames[self.cur + 1:]
-        if not later:
-            return ["id", self.name_in(scope)]
-        self.count("call")
-        return [self.rng.choice(["call", "call", "thiscall"]), self.rng.choice(later), self.expr(depth - 1, scope)]
+        self.count("this.f")
+        return ["this", self.rng.choice(self.fields)]
 
     def block(self, depth, scope, declared_here, top=False):
         """scope: locals in scope; declared_here: names declared in THIS Go block (no := twice in one block)"""
@@ -165,35 +167,35 @@ class ClassGen:
             r = self.rng.below(11)
             if r < 3:
                 self.count("assign")
-                out.append(["assign", self.name_in(scope), self.expr(2, scope)])
+                out.append(["assign", self.name_in(scope), self.expr(2, scope, top=True)])
             elif r < 4:
                 self.count("thisassign")
-                out.append(["thisassign", self.rng.choice(self.fields), self.expr(2, scope)])
+                out.append(["thisassign", self.rng.choice(self.fields), self.expr(2, scope, top=True)])
             elif r < 6:
                 cand = [n for n in ["t0", "t1"] + self.fields + ["g0"] if n not in declared_here]
                 if not cand:
                     continue
                 x = self.rng.choice(cand)
                 self.count("define-shadowing-field" if x in self.fields else "define")
-                out.append(["define", x, self.expr(2, scope)])
+                out.append(["define", x, self.expr(2, scope, top=True)])
                 scope = [x] + scope
                 declared_here.append(x)
                 out.append(["print", ["id", x]])
             elif r < 8:
                 self.count("print")
-                out.append(["print", self.expr(2, scope)])
+                out.append(["print", self.expr(2, scope, top=True)])
             elif r < 9:
                 later = self.mnames[self.cur + 1:]
                 if later:
                     self.count("callstmt")
-                    out.append(["expr", [self.rng.choice(["call", "thiscall"]), self.rng.choice(later), self.expr(1, scope)]])
+                    out.append(["expr", [self.rng.choice(["call", "thiscall"]), self.rng.choice(later), self.expr(1, scope, top=True)]])
             elif depth > 0:
                 self.count("if")
                 t = self.block(depth - 1, scope, [])
                 f = self.block(depth - 1, scope, []) if self.rng.below(2) else []
                 if self.rng.below(5) == 0:
-                    t.append(["return", self.expr(1, scope)])
-                out.append(["if", self.expr(2, scope), t, f])
+                    t.append(["return", self.expr(1, scope, top=True)])
+                out.append(["if", self.expr(2, scope, top=True), t, f])
         return out
 
     @staticmethod
@@ -450,10 +452,12 @@ func main() {
                    "this.-qualified calls of later methods; var block with grouped names, tags, embedded T, *T, *pkg.T, pkg.T; optional "
                    "static method and receiver function), %d per package, each with the explicit form produced by the model; one go "
                    "build, one run; evaluations = scenario runs compared (%d: class form and explicit form) + type-view comparisons "
-                   "(%d); non-trivial = distinct class. Not generated: duplicate field names (a compile error), calls through "
+                   "(%d); non-trivial = distinct class. Not generated: a method call next to another operand in one expression "
+                   "(Go leaves the order of a variable read and a call unspecified), duplicate field names (a compile error), calls through "
                    "embedded members, project class files" % (nclasses, per_pkg, nrun, len(tc)),
               construct_histogram=dict(sorted(hist.items())))
     ctx.trust("modelled, not verified: parser.parseValueSpec (class-file branch), cl/compile.go preloadGopFile (typInit, classRecv), "
               "preloadFile (receiver injection, static methods), cl/expr.go compileIdent (local, then class member, then global)",
               "the evaluator of Model/C11.v is a small language of my own, validated against the built programs")
+    ctx.assume("method calls only fill a whole expression slot: operand-vs-call evaluation order is unspecified in Go (gc reads `x` in `x + m()` after the call) and is not part of the property")
     ctx.assume("int arithmetic of the generated scenarios stays far below 2^63 (the model computes in Z)")
